@@ -66,6 +66,11 @@ pub fn gate_model(ix: &Index) -> Result<GateModel, String> {
         }
     }
     if !bad_values.is_empty() { bad_values.sort(); bad_values.dedup(); return Err(format!("recording the derived traits does not switch their flags on: {}", bad_values.join("; "))); }
+    // which helper attributes a derived trait owns depends on which trait it is, on nothing else about the entry (its own
+    // `dump`, its arguments): an entry skipped here has its helper attributes neither read nor removed
+    let mut foreign: Vec<String> = outs.iter().flat_map(|(st, _)| st.cond.iter().map(|(a, _)| a.clone()).collect::<Vec<_>>()).filter(|a| !(a.starts_with("es[*].kind") || a.starts_with("es is empty") || a.starts_with("es.len"))).collect();
+    foreign.sort(); foreign.dedup();
+    if !foreign.is_empty() { return Err(format!("recording the derived traits depends on more than the kind of each entry: {}", foreign.join("; "))); }
     let mut uns = ev.unsupported.borrow().clone();
     // 2. the gate is read off its consumer: the constructor of the five comparison helper attributes
     //    parses attribute `a` (instead of taking the default) under which derived sets?
